@@ -2,10 +2,10 @@ package main
 
 import (
 	"fmt"
-	"os"
 	"go/constant"
 	"go/token"
 	"go/types"
+	"os"
 	"sort"
 	"strings"
 
@@ -1242,4 +1242,554 @@ func c09Trace(r *Run) {
 			fmt.Fprintf(os.Stderr, "TRACE ok=%v %s @%s: %s\n", o.OK, o.Key, o.Where, o.Detail)
 		}
 	}
+}
+
+// ---- C09.R3, round 8: a tag key beyond the six documented ones is an allocation hint only ------------
+//
+// R3 used to demand that fieldTagToFieldInfo recognises exactly the six documented keys.  The fact
+// that matters for the property is narrower: THE SET OF VALUES / BYTE STRINGS THE CODEC ACCEPTS, AND
+// THE BYTES IT EMITS, ARE A FUNCTION OF THE SIX DOCUMENTED CLAUSES ALONE.  A further key is
+// compatible with that exactly when nothing observable depends on it — it is an allocation hint.
+// That is a non-interference fact, decided by following the key's influence:
+//
+//	in fieldTagToFieldInfo   the key's own case (the blocks its test dominates) only parses (strconv /
+//	                         strings) and may store into fields of a fieldInfo that exists already; it
+//	                         creates no fieldInfo, returns nothing, calls nothing else.  What leaves the
+//	                         case — values computed in it, constants merged over its edges — is
+//	                         followed: it may be combined arithmetically, merged, and stored into
+//	                         fields of the fieldInfo (these become the key's *hint fields*); it must
+//	                         not be returned, passed on, used as an address / index / bound, and a
+//	                         branch on it may decide nothing but which of several pure values is merged.
+//	everywhere in the module every read of a hint field is followed the same way; the only places
+//	                         the value may end in are CAPACITY operands: the cap of reflect.MakeSlice /
+//	                         make([]T, n, cap), a map's size hint, (*bytes.Buffer).Grow.
+//
+// A branch on a followed value is harmless when the blocks that execute on one side only are free
+// of effects (no store, call, return, panic, send …): the merged values downstream are followed on.
+// Anything the analysis does not model reads as an influence (fail closed).
+
+type c09KeyVerdict struct {
+	key    string
+	hint   bool
+	fields []string
+	why    string
+	where  string
+}
+
+var c09KeyMemo = map[*Prog]map[string]*c09KeyVerdict{}
+
+var c09WireKeys = map[string]bool{"maxval:": true, "size:": true, "maxlen:": true, "minlen:": true, "selector:": true, "val:": true}
+
+func isFieldInfoPtr(t types.Type) bool {
+	p, ok := t.Underlying().(*types.Pointer)
+	return ok && isFieldInfo(p.Elem())
+}
+
+func isFieldInfo(t types.Type) bool {
+	n, ok := t.(*types.Named)
+	return ok && n.Obj().Name() == "fieldInfo" && n.Obj().Pkg() != nil && n.Obj().Pkg().Path() == ModPath+"/tls"
+}
+
+// c09Influence follows values through one function.
+type c09Influence struct {
+	r      *Run
+	fn     *ssa.Function
+	skip   map[*ssa.BasicBlock]bool // blocks whose instructions were judged otherwise (the key's own case)
+	seen   map[ssa.Value]bool
+	fields map[string]bool // fieldInfo fields the followed values are stored into
+	whys   []string
+	where  string
+}
+
+func (f *c09Influence) bad(in ssa.Instruction, why string) {
+	for _, w := range f.whys {
+		if w == why {
+			return
+		}
+	}
+	if len(f.whys) == 0 {
+		f.where = f.r.Where(in)
+	}
+	if len(f.whys) < 6 {
+		f.whys = append(f.whys, why)
+	}
+}
+
+var c09PureCallees = []string{"strconv.*", "strings.*", "len", "cap", "min", "max"}
+
+// effectFreeInstr: executing the instruction or not makes no observable difference (its value apart).
+func c09EffectFree(in ssa.Instruction) bool {
+	switch x := in.(type) {
+	case *ssa.Phi, *ssa.BinOp, *ssa.UnOp, *ssa.Convert, *ssa.ChangeType, *ssa.Extract, *ssa.If, *ssa.Jump, *ssa.FieldAddr,
+		*ssa.Field, *ssa.DebugRef, *ssa.MakeInterface, *ssa.ChangeInterface, *ssa.Slice, *ssa.IndexAddr, *ssa.Index:
+		return true
+	case *ssa.Call:
+		if b, ok := x.Call.Value.(*ssa.Builtin); ok {
+			switch b.Name() {
+			case "len", "cap", "min", "max":
+				return true
+			}
+		}
+	}
+	return false
+}
+
+func (f *c09Influence) follow(v ssa.Value) {
+	if f.seen[v] {
+		return
+	}
+	f.seen[v] = true
+	refs := v.Referrers()
+	if refs == nil {
+		return
+	}
+	r := f.r
+	for _, ref := range *refs {
+		if f.skip[ref.Block()] {
+			continue
+		}
+		switch x := ref.(type) {
+		case *ssa.DebugRef:
+		case *ssa.Phi, *ssa.BinOp, *ssa.Convert, *ssa.ChangeType, *ssa.Extract, *ssa.MakeInterface:
+			f.follow(x.(ssa.Value))
+		case *ssa.UnOp:
+			if x.Op == token.MUL || x.Op == token.ARROW {
+				f.bad(x, "it is used as an address at "+r.Where(x))
+				continue
+			}
+			f.follow(x)
+		case *ssa.Store:
+			if x.Addr == v {
+				f.bad(x, "it is used as the address of a store at "+r.Where(x))
+				continue
+			}
+			fa, ok := x.Addr.(*ssa.FieldAddr)
+			if !ok || !isFieldInfoPtr(fa.X.Type()) {
+				f.bad(x, "it is stored to "+r.D.D(x.Addr)+" at "+r.Where(x)+" (only fields of the field info are followed)")
+				continue
+			}
+			st := fa.X.Type().Underlying().(*types.Pointer).Elem().Underlying().(*types.Struct)
+			f.fields[st.Field(fa.Field).Name()] = true
+		case *ssa.MakeSlice:
+			if x.Len == v {
+				f.bad(x, "it decides the LENGTH of the slice made at "+r.Where(x))
+				continue
+			}
+		case *ssa.MakeMap:
+		case *ssa.Call:
+			name := CalleeOf(x)
+			args := CallArgs(x)
+			if b, isB := x.Call.Value.(*ssa.Builtin); isB && (b.Name() == "min" || b.Name() == "max") {
+				f.follow(x)
+				continue
+			}
+			okSink := false
+			switch name {
+			case "reflect.MakeSlice":
+				okSink = len(args) == 3 && args[2] == v && args[0] != v && args[1] != v
+			case "(*bytes.Buffer).Grow", "(*strings.Builder).Grow":
+				okSink = len(args) == 2 && args[1] == v && args[0] != v
+			case "slices.Grow":
+				okSink = len(args) == 2 && args[1] == v && args[0] != v
+			}
+			if !okSink {
+				f.bad(x, "it is passed to "+name+" at "+r.Where(x)+" (not as a capacity)")
+				continue
+			}
+		case *ssa.If:
+			f.branch(x)
+		case *ssa.Return:
+			f.bad(x, "it is returned by "+FuncName(f.fn)+" at "+r.Where(x))
+			continue
+		default:
+			f.bad(ref, fmt.Sprintf("it is used by a %T instruction at %s", ref, r.Where(ref)))
+			continue
+		}
+	}
+}
+
+// branch: the outcome of a test on a followed value may decide nothing but which pure values are merged.
+func (f *c09Influence) branch(ifi *ssa.If) {
+	B := ifi.Block()
+	if len(B.Succs) != 2 {
+		return
+	}
+	reach := func(s *ssa.BasicBlock) map[*ssa.BasicBlock]bool {
+		seen := map[*ssa.BasicBlock]bool{}
+		work := []*ssa.BasicBlock{s}
+		for len(work) > 0 {
+			b := work[len(work)-1]
+			work = work[:len(work)-1]
+			if seen[b] || b == B {
+				continue
+			}
+			seen[b] = true
+			work = append(work, b.Succs...)
+		}
+		return seen
+	}
+	r0, r1 := reach(B.Succs[0]), reach(B.Succs[1])
+	only := map[*ssa.BasicBlock]bool{B: true} // B itself: edges from B into a merge carry the decision
+	for b := range r0 {
+		if !r1[b] {
+			only[b] = true
+		}
+	}
+	for b := range r1 {
+		if !r0[b] {
+			only[b] = true
+		}
+	}
+	r := f.r
+	// the most telling effect among the one-sided blocks: a return, then a panic, a call, a store, anything else
+	var worst ssa.Instruction
+	rank := func(in ssa.Instruction) int {
+		switch in.(type) {
+		case *ssa.Return:
+			return 5
+		case *ssa.Panic:
+			return 4
+		case *ssa.Call, *ssa.Go, *ssa.Defer:
+			return 3
+		case *ssa.Store, *ssa.MapUpdate, *ssa.Send:
+			return 2
+		}
+		return 1
+	}
+	for _, b := range f.fn.Blocks {
+		if !only[b] || b == B {
+			continue
+		}
+		for _, in := range b.Instrs {
+			if c09EffectFree(in) {
+				continue
+			}
+			if worst == nil || rank(in) > rank(worst) {
+				worst = in
+			}
+		}
+	}
+	if worst != nil {
+		in := worst
+		what := fmt.Sprintf("a %T instruction", in)
+		switch x := in.(type) {
+		case *ssa.Return:
+			what = "the return"
+			if n := len(x.Results); n > 0 {
+				if t := errTypeOf(x.Results[n-1]); t != "" {
+					what = "the return of a " + t
+				} else if errKind(x.Results[n-1]) == "nil" {
+					what = "an accepting return"
+				}
+			}
+		case *ssa.Call:
+			what = "the call of " + CalleeOf(x)
+		case *ssa.Store:
+			what = "the store to " + r.D.D(x.Addr)
+		case *ssa.Panic:
+			what = "a panic"
+		}
+		f.bad(in, fmt.Sprintf("the test on it at %s decides whether %s at %s of %s executes", r.Where(ifi), what, r.Where(in), FuncName(f.fn)))
+		return
+	}
+	// merges fed from the one-sided blocks carry the decision on
+	for _, b := range f.fn.Blocks {
+		if only[b] && b != B {
+			continue
+		}
+		fed := false
+		for _, p := range b.Preds {
+			if only[p] {
+				fed = true
+			}
+		}
+		if !fed {
+			continue
+		}
+		for _, in := range b.Instrs {
+			ph, ok := in.(*ssa.Phi)
+			if !ok {
+				break
+			}
+			same := true
+			for _, ed := range ph.Edges {
+				if ed != ph.Edges[0] {
+					same = false
+				}
+			}
+			if !same {
+				f.follow(ph)
+			}
+		}
+	}
+}
+
+// c09KeyVerdicts classifies every tag key fieldTagToFieldInfo tests beyond the six documented ones.
+func c09KeyVerdicts(r *Run) map[string]*c09KeyVerdict {
+	if m, ok := c09KeyMemo[r.P]; ok {
+		return m
+	}
+	out := map[string]*c09KeyVerdict{}
+	c09KeyMemo[r.P] = out
+	fn := r.P.Func("tls.fieldTagToFieldInfo")
+	if fn == nil || len(fn.Blocks) == 0 {
+		return out
+	}
+	tests := append(CallsTo(fn, "strings.HasPrefix"), CallsTo(fn, "strings.CutPrefix")...)
+	for _, ci := range tests {
+		call, ok := ci.(*ssa.Call)
+		if !ok || len(call.Call.Args) != 2 {
+			continue
+		}
+		k, isC := call.Call.Args[1].(*ssa.Const)
+		if !isC || k.Value == nil || k.Value.Kind() != constant.String {
+			continue
+		}
+		key := constant.StringVal(k.Value)
+		if c09WireKeys[key] {
+			continue
+		}
+		v := &c09KeyVerdict{key: key}
+		if old := out[key]; old != nil {
+			old.hint, old.why, old.where = false, "the key is tested more than once", r.Where(call)
+			continue
+		}
+		out[key] = v
+		var tested ssa.Value = call
+		if CalleeOf(call) == "strings.CutPrefix" {
+			tested = CallResult(call, 1)
+		}
+		var head *ssa.BasicBlock
+		if tested != nil && tested.Referrers() != nil {
+			for _, ref := range *tested.Referrers() {
+				if ifi, ok := ref.(*ssa.If); ok && len(ifi.Block().Succs[0].Preds) == 1 {
+					head = ifi.Block().Succs[0]
+				}
+			}
+		}
+		if head == nil {
+			v.why, v.where = "no case guarded by the key test was found", r.Where(call)
+			continue
+		}
+		region := map[*ssa.BasicBlock]bool{}
+		for _, b := range fn.Blocks {
+			if head == b || head.Dominates(b) {
+				region[b] = true
+			}
+		}
+		inf := &c09Influence{r: r, fn: fn, skip: region, seen: map[ssa.Value]bool{}, fields: map[string]bool{}}
+		// (1) the key's own case
+		for _, b := range fn.Blocks {
+			if !region[b] {
+				continue
+			}
+			for _, in := range b.Instrs {
+				if c09EffectFree(in) {
+					continue
+				}
+				switch x := in.(type) {
+				case *ssa.Call:
+					if anyGlob(strings.Join(c09PureCallees, " || "), CalleeOf(x)) {
+						continue
+					}
+					inf.bad(in, "its case calls "+CalleeOf(x)+" at "+r.Where(in))
+				case *ssa.Alloc:
+					if isFieldInfo(x.Type().(*types.Pointer).Elem()) {
+						inf.bad(in, "its case creates the field's description (a fieldInfo at "+r.Where(in)+"): a tag is not described as it would be without the clause — a field tagged with it alone gets bounds it did not have")
+					} else {
+						inf.bad(in, "its case creates a variable at "+r.Where(in))
+					}
+				case *ssa.Store:
+					fa, ok := x.Addr.(*ssa.FieldAddr)
+					if ok && isFieldInfoPtr(fa.X.Type()) {
+						// (a description created in the case is reported where it is created)
+						st := fa.X.Type().Underlying().(*types.Pointer).Elem().Underlying().(*types.Struct)
+						inf.fields[st.Field(fa.Field).Name()] = true
+						continue
+					}
+					inf.bad(in, "its case stores to "+r.D.D(x.Addr)+" at "+r.Where(in))
+				case *ssa.Return:
+					inf.bad(in, "its case returns from fieldTagToFieldInfo at "+r.Where(in))
+				default:
+					inf.bad(in, fmt.Sprintf("its case contains a %T instruction at %s", in, r.Where(in)))
+				}
+			}
+		}
+		// (2) what leaves the case
+		{
+			for _, b := range fn.Blocks {
+				if !region[b] {
+					// constants merged over an edge out of the case
+					for _, in := range b.Instrs {
+						ph, ok := in.(*ssa.Phi)
+						if !ok {
+							break
+						}
+						for j, ed := range ph.Edges {
+							if !region[b.Preds[j]] {
+								continue
+							}
+							if c, isConst := ed.(*ssa.Const); isConst {
+								same := true
+								for _, e2 := range ph.Edges {
+									if c2, ok := e2.(*ssa.Const); !ok || constString(c2) != constString(c) {
+										same = false
+									}
+								}
+								if !same {
+									inf.follow(ph)
+								}
+							}
+						}
+					}
+					continue
+				}
+				for _, in := range b.Instrs {
+					if val, ok := in.(ssa.Value); ok && val.Referrers() != nil {
+						for _, ref := range *val.Referrers() {
+							if !region[ref.Block()] {
+								delete(inf.seen, val)
+								inf.follow(val)
+							}
+						}
+					}
+				}
+			}
+		}
+		// (3) every read of a hint field, anywhere in the module
+		var far []string
+		farWhere := ""
+		if len(inf.fields) > 0 {
+			var all []*ssa.Function
+			seenFn := map[*ssa.Function]bool{}
+			var add func(g *ssa.Function)
+			add = func(g *ssa.Function) {
+				if g == nil || seenFn[g] {
+					return
+				}
+				seenFn[g] = true
+				all = append(all, g)
+				for _, af := range g.AnonFuncs {
+					add(af)
+				}
+			}
+			for _, g := range r.P.ModFuncs {
+				add(g)
+			}
+			for _, g := range all {
+				gi := &c09Influence{r: r, fn: g, skip: map[*ssa.BasicBlock]bool{}, seen: map[ssa.Value]bool{}, fields: map[string]bool{}}
+				if g == fn {
+					gi.skip = region
+				}
+				eachInstr(g, func(in ssa.Instruction) {
+					switch x := in.(type) {
+					case *ssa.FieldAddr:
+						if !isFieldInfoPtr(x.X.Type()) {
+							return
+						}
+						st := x.X.Type().Underlying().(*types.Pointer).Elem().Underlying().(*types.Struct)
+						if !inf.fields[st.Field(x.Field).Name()] || x.Referrers() == nil {
+							return
+						}
+						for _, ref := range *x.Referrers() {
+							switch y := ref.(type) {
+							case *ssa.DebugRef:
+							case *ssa.Store:
+								if y.Addr != ssa.Value(x) {
+									gi.bad(y, "the address of field "+st.Field(x.Field).Name()+" is stored away at "+r.Where(y))
+								}
+							case *ssa.UnOp:
+								if y.Op == token.MUL {
+									gi.follow(y)
+								} else {
+									gi.bad(y, "the address of field "+st.Field(x.Field).Name()+" is used at "+r.Where(y))
+								}
+							default:
+								gi.bad(ref, fmt.Sprintf("the address of field %s is used by a %T at %s", st.Field(x.Field).Name(), ref, r.Where(ref)))
+							}
+						}
+					case *ssa.Field:
+						if isFieldInfo(x.X.Type()) {
+							st := x.X.Type().Underlying().(*types.Struct)
+							if inf.fields[st.Field(x.Field).Name()] {
+								gi.follow(x)
+							}
+						}
+					}
+				})
+				for f2 := range gi.fields {
+					if !inf.fields[f2] {
+						gi.bad(g.Blocks[0].Instrs[0], "it is copied into field "+f2+" of a field info in "+FuncName(g))
+					}
+				}
+				for _, w := range gi.whys {
+					if len(far) < 6 {
+						far = append(far, "read back from the field info in "+FuncName(g)+", "+w)
+					}
+					if farWhere == "" {
+						farWhere = gi.where
+					}
+				}
+			}
+		}
+		v.fields = keysOf(inf.fields)
+		// what the clause does to acceptance / output first, what it does to the description of the tag after
+		all := append(far, inf.whys...)
+		if len(all) > 4 {
+			all = append(all[:4], fmt.Sprintf("… (%d more)", len(all)-4))
+		}
+		v.hint, v.why, v.where = len(all) == 0, strings.Join(all, "; "), farWhere
+		if v.where == "" {
+			v.where = inf.where
+		}
+		if v.where == "" {
+			v.where = r.Where(call)
+		}
+	}
+	return out
+}
+
+// ---- C09.R5, round 8: a size chosen among several values ----------------------------------------------
+//
+// c09BoundedAt: n ≤ limit whenever block `at` executes.  n itself under the guards that dominate `at`;
+// or n merges several values (a φ that is not a loop counter — `cap := datalen; if hint < cap { cap =
+// hint }`): then EACH incoming value is bounded under what holds on the edge over which it arrives
+// (the guards dominating the predecessor plus the branch taken at its end).  A merged value is below
+// the limit because every way of choosing it is, not because of the shape of the choice.
+func c09BoundedAt(e *wEng, limit lin, n ssa.Value, at *ssa.BasicBlock, depth int) bool {
+	if e.entails(limit.plus(e.lin(n), -1), e.factsAt(at)) {
+		return true
+	}
+	ph, ok := n.(*ssa.Phi)
+	if !ok || isInduction(ph) || depth > 3 || !(ph.Block() == at || ph.Block().Dominates(at)) {
+		return false
+	}
+	for j, ed := range ph.Edges {
+		P := ph.Block().Preds[j]
+		if e.entails(limit.plus(e.lin(ed), -1), e.edgeFacts(P, ph.Block())) {
+			continue
+		}
+		if !c09BoundedAt(e, limit, ed, P, depth+1) {
+			return false
+		}
+	}
+	return true
+}
+
+// c09SizeKey: key fragment of an allocation size; a merged size is named by the values it merges
+// (not by the engine's numbering of φ-nodes).
+func c09SizeKey(e *wEng, n ssa.Value) string {
+	if ph, ok := n.(*ssa.Phi); ok && !isInduction(ph) {
+		var parts []string
+		for _, ed := range ph.Edges {
+			if _, nested := ed.(*ssa.Phi); nested {
+				parts = append(parts, "φ")
+			} else {
+				parts = append(parts, keySafe(e.lin(ed).String()))
+			}
+		}
+		sort.Strings(parts)
+		return "one-of(" + strings.Join(parts, "|") + ")"
+	}
+	return keySafe(e.lin(n).String())
 }
